@@ -70,8 +70,8 @@ def c05_extra(run, tier, bins):
 
 PROPS = {
     "C01": {
-        "uses_gen": ["constants", "config", "headers", "writer", "verify", "coding", "source", "decode", "lpc", "rice"],
-        "theorem_modules": ["FlacVerif.Theorems.C01", "FlacVerif.Theorems.C01Strict", "FlacVerif.Theorems.C01Wrap", "FlacVerif.Theorems.C09Gen", "FlacVerif.Theorems.C01Gen", "FlacVerif.Theorems.C13Gen"],
+        "uses_gen": ["constants", "config", "headers", "writer", "verify", "coding", "source", "decode", "lpc", "rice", "driver"],
+        "theorem_modules": ["FlacVerif.Theorems.C01", "FlacVerif.Theorems.C01Strict", "FlacVerif.Theorems.C01Wrap", "FlacVerif.Theorems.C09Gen", "FlacVerif.Theorems.C01Gen", "FlacVerif.Theorems.C13Gen", "FlacVerif.Theorems.C03GenMem"],
         "streams": {"quick": [("stream", ["--cases", 400, "--max-samples", 6000]), ("kernel", ["--cases", 150]), ("stream", ["--cases", 24, "--max-samples", 9000, "--focus", "burst"])],
                     "thorough": [("stream", ["--cases", 2000, "--max-samples", 24000]), ("kernel", ["--cases", 3000]), ("stream", ["--cases", 333, "--max-samples", 24000, "--focus", "burst"])],
                     "search": [("stream", ["--cases", 1500, "--max-samples", 12000])]},
@@ -89,7 +89,7 @@ PROPS = {
     },
     "C03": {
         "uses_gen": ["constants", "config", "headers", "writer", "verify", "source", "coding", "driver"],
-        "theorem_modules": ["FlacVerif.Theorems.C03", "FlacVerif.Theorems.C01Strict", "FlacVerif.Theorems.C14Gen", "FlacVerif.Theorems.C03Gen"],
+        "theorem_modules": ["FlacVerif.Theorems.C03", "FlacVerif.Theorems.C01Strict", "FlacVerif.Theorems.C14Gen", "FlacVerif.Theorems.C03Gen", "FlacVerif.Theorems.C03GenMem"],
         "streams": {"quick": [("stream", ["--cases", 400, "--max-samples", 6000])],
                     "thorough": [("stream", ["--cases", 2000, "--max-samples", 24000])],
                     "search": [("stream", ["--cases", 1500, "--max-samples", 12000])]},
@@ -98,7 +98,7 @@ PROPS = {
     },
     "C04": {
         "uses_gen": ["constants", "config", "headers", "writer", "verify", "source", "coding", "driver"],
-        "theorem_modules": ["FlacVerif.Theorems.C04", "FlacVerif.Theorems.C01Strict", "FlacVerif.Theorems.C03Gen"],
+        "theorem_modules": ["FlacVerif.Theorems.C04", "FlacVerif.Theorems.C01Strict", "FlacVerif.Theorems.C03Gen", "FlacVerif.Theorems.C03GenMem"],
         "streams": {"quick": [("stream", ["--cases", 300, "--max-samples", 6000]), ("stream", ["--cases", 300, "--max-samples", 1200, "--focus", "residues"]), ("stream", ["--cases", 5, "--max-samples", 36000, "--focus", "manyframes"])],
                     "thorough": [("stream", ["--cases", 1333, "--max-samples", 24000]), ("stream", ["--cases", 3000, "--max-samples", 2000, "--focus", "residues"]), ("stream", ["--cases", 100, "--max-samples", 24000, "--focus", "manyframes"])],
                     "search": [("stream", ["--cases", 1500, "--max-samples", 2000, "--focus", "residues"])]},
@@ -107,8 +107,8 @@ PROPS = {
         "trusted_base": STREAM_TRUSTED, "assumptions": [],
     },
     "C09": {
-        "uses_gen": ["constants", "config", "headers", "writer", "verify", "coding", "source", "decode", "lpc", "rice"],
-        "theorem_modules": ["FlacVerif.Theorems.C09", "FlacVerif.Theorems.C09Stream", "FlacVerif.Theorems.C09Gen", "FlacVerif.Theorems.C01Gen", "FlacVerif.Theorems.C13Gen"],
+        "uses_gen": ["constants", "config", "headers", "writer", "verify", "coding", "source", "decode", "lpc", "rice", "callees"],
+        "theorem_modules": ["FlacVerif.Theorems.C09", "FlacVerif.Theorems.C09Stream", "FlacVerif.Theorems.C09Gen", "FlacVerif.Theorems.C01Gen", "FlacVerif.Theorems.C13Gen", "FlacVerif.Theorems.C09Gen2"],
         "streams": {"quick": [("stream", ["--cases", 250, "--max-samples", 6000]), ("stream", ["--cases", 150, "--max-samples", 9000, "--focus", "loud"]), ("stream", ["--cases", 52, "--max-samples", 9000, "--focus", "threshold"])],
                     "thorough": [("stream", ["--cases", 1333, "--max-samples", 24000]), ("stream", ["--cases", 1000, "--max-samples", 24000, "--focus", "loud"]), ("stream", ["--cases", 173, "--max-samples", 24000, "--focus", "threshold"])],
                     "search": [("stream", ["--cases", 1500, "--max-samples", 9000, "--focus", "loud"])]},
@@ -159,7 +159,7 @@ PROPS.update({
         "assumptions": ["components satisfy the well-formedness the constructors/verify establish (C18); frame and sample numbers < 2^36"],
     },
     "C12": {
-        "theorem_modules": ["FlacVerif.Theorems.C12", "FlacVerif.Theorems.C08Gen"], "uses_gen": ["headers", "writer"],
+        "theorem_modules": ["FlacVerif.Theorems.C12", "FlacVerif.Theorems.C08Gen", "FlacVerif.Theorems.C12Gen"], "uses_gen": ["headers", "writer", "sink"],
         "streams": {"quick": [("comp", ["--cases", 120])], "thorough": [("comp", ["--cases", 4000])], "search": [("comp", ["--cases", 1500])]},
         "profiles": {"quick": ["release", "dev"], "thorough": ["release", "dev"]},
         "diff_prefix": ["c12."], "oracle_fields": ["o_c12"], "rule": COMP_RULE,
@@ -202,7 +202,7 @@ PAR_RULE = ("par stream: corpus (the three confirmed failures of F8: read error,
 PROPS.update({
     "C05": {
         "extra": c05_extra, "uses_gen": ["constants", "par"],
-        "theorem_modules": ["FlacVerif.Theorems.C05", "FlacVerif.Theorems.C06Gen"],
+        "theorem_modules": ["FlacVerif.Theorems.C05", "FlacVerif.Theorems.C06Gen", "FlacVerif.Theorems.C06GenCor"],
         "streams": {"quick": [("par", ["--cases", 150])], "thorough": [("par", ["--cases", 6000])], "search": [("par", ["--cases", 1500])]},
         "diff_prefix": ["c05."], "oracle_fields": ["o_c05"], "rule": PAR_RULE,
         "trusted_base": ["Model/Par.lean: hand model of the thread protocol of par.rs (atomic steps = channel operations and marked scheduling points), tied to the code by replaying every logged run",
@@ -213,7 +213,7 @@ PROPS.update({
     },
     "C06": {
         "uses_gen": ["constants", "par"],
-        "theorem_modules": ["FlacVerif.Theorems.C06", "FlacVerif.Theorems.C06Gen"],
+        "theorem_modules": ["FlacVerif.Theorems.C06", "FlacVerif.Theorems.C06Gen", "FlacVerif.Theorems.C06GenCor"],
         "streams": {"quick": [("par", ["--cases", 150])], "thorough": [("par", ["--cases", 6000])], "search": [("par", ["--cases", 1500])]},
         "diff_prefix": ["c06."], "oracle_fields": ["o_c06"], "rule": PAR_RULE,
         "trusted_base": ["Model/Par.lean (as C05)", "that a model thread in state `exited` corresponds to an OS thread that is gone is observed (/proc/self/task), not proved",
@@ -231,8 +231,8 @@ API_RULE = ("api stream: every public entry point (StreamInfo::new / Stream::new
 
 PROPS.update({
     "C17": {
-        "uses_gen": ["constants", "source", "config", "headers", "writer", "verify", "coding"],
-        "theorem_modules": ["FlacVerif.Theorems.C17", "FlacVerif.Theorems.C14Gen", "FlacVerif.Theorems.C09Gen"],
+        "uses_gen": ["constants", "source", "config", "headers", "writer", "verify", "coding", "driver"],
+        "theorem_modules": ["FlacVerif.Theorems.C17", "FlacVerif.Theorems.C14Gen", "FlacVerif.Theorems.C09Gen", "FlacVerif.Theorems.C03GenErr"],
         "streams": {"quick": [("api", [])], "thorough": [("api", ["--thorough"])], "search": [("api", ["--thorough"])]},
         "profiles": {"quick": ["release", "dev"], "thorough": ["release", "dev"]},
         "diff_prefix": ["c17."], "oracle_fields": ["o_c17"], "rule": API_RULE,
@@ -416,8 +416,8 @@ CONFIG_RULE = ("config stream: corpus (F2: partitions 0 / 1000, max_order 7; F13
 
 PROPS.update({
     "C07": {
-        "driver": "fvconfig", "uses_gen": ["constants", "config", "headers", "writer", "verify", "coding", "source", "decode", "lpc", "rice"], "extra": c07_extra,
-        "theorem_modules": ["FlacVerif.Theorems.C07", "FlacVerif.Theorems.C07Total", "FlacVerif.Theorems.C09Gen", "FlacVerif.Theorems.C01Gen", "FlacVerif.Theorems.C13Gen"],
+        "driver": "fvconfig", "uses_gen": ["constants", "config", "headers", "writer", "verify", "coding", "source", "decode", "lpc", "rice", "driver"], "extra": c07_extra,
+        "theorem_modules": ["FlacVerif.Theorems.C07", "FlacVerif.Theorems.C07Total", "FlacVerif.Theorems.C09Gen", "FlacVerif.Theorems.C01Gen", "FlacVerif.Theorems.C13Gen", "FlacVerif.Theorems.C03GenErr"],
         "streams": {"quick": [("config", ["--cases", 150])], "thorough": [("config", ["--cases", 800, "--thorough"])], "search": [("config", ["--cases", 800, "--thorough"])]},
         "profiles": {"quick": ["release", "dev"], "thorough": ["release", "dev"]},
         "diff_prefix": ["c07."], "oracle_fields": ["o_c07"], "rule": CONFIG_RULE,
@@ -444,8 +444,8 @@ HISTORY_RULE = ("history stream: corpus (F7: Tukey alpha 0.0, 1e-6, 0.4, 0.40001
 
 PROPS.update({
     "C10": {
-        "extra": c10_extra, "uses_gen": ["constants", "source", "decode", "lpc", "rice"],
-        "theorem_modules": ["FlacVerif.Theorems.C10", "FlacVerif.Theorems.C01Gen", "FlacVerif.Theorems.C13Gen"],
+        "extra": c10_extra, "uses_gen": ["constants", "config", "headers", "writer", "verify", "coding", "source", "decode", "lpc", "rice"],
+        "theorem_modules": ["FlacVerif.Theorems.C10", "FlacVerif.Theorems.C01Gen", "FlacVerif.Theorems.C13Gen", "FlacVerif.Theorems.C10Gen"],
         "streams": {"quick": [("history", ["--cases", 60]), ("kernel", ["--cases", 120])],
                     "thorough": [("history", ["--cases", 3000]), ("kernel", ["--cases", 1500])],
                     "search": [("history", ["--cases", 600])]},
